@@ -1,7 +1,7 @@
 \* default constants of the 6809 case generator (checks/ext_isa6809.py writes per-run copies: Full = FALSE quick /
-\* TRUE thorough, Salt = seed-derived, K = 3 quick / 8 thorough, Part = 1 / 2 for parallel runs).  Every leaf is
+\* TRUE thorough, Salt = seed-derived, K = 3 quick / 8 thorough, Parts / Part = slice of the mnemonics for parallel runs).  Every leaf is
 \* one initial state; the whole finite set is explored (exhaustive).  Dump = all leaf checks + the printed case.
-CONSTANTS Full = FALSE Salt = 1 K = 3 Part = 0
+CONSTANTS Full = FALSE Salt = 1 K = 3 Parts = 1 Part = 0
 INIT Init
 NEXT Next
 INVARIANTS Dump
